@@ -120,6 +120,12 @@ void vh_make_def(void *p, size_t n);
 /* report a violation "<current crash key>:undefined-<what>" if [p,p+n) is not fully defined; returns 1 if reported */
 int vh_check_defined(const char *what, const void *p, size_t n);
 
+/* ---------- relocated read-only copies (const-correctness / no-hidden-pointer monitor) ----------
+ * vh_ro_copy copies an object into a private page at a fresh address and makes the page PROT_READ: a function that
+ * takes the object by pointer-to-const must work on the copy (no pointers into the original, no writes). */
+const void *vh_ro_copy(int slot, const void *obj, size_t n);
+void vh_ro_release(int slot);
+
 /* stack painter: fills ~n bytes of stack below the caller with v */
 void vh_paint_stack(int v, size_t n);
 
